@@ -456,9 +456,11 @@ def rule_handle(ctx) -> RuleResult:
             if e is not None and who.who(test.comparators[0]):
                 return {("uidin", e, truth == isinstance(test.ops[0], ast.In))}
         if isinstance(test, ast.Call) and getattr(test.func, "id", None) == "isinstance" and len(test.args) == 2 and unparse(test.args[0]) == ent:
-            names = {unparse(x) for x in (test.args[1].elts if isinstance(test.args[1], ast.Tuple) else [test.args[1]])}
-            if names & {"Entity", "EntityType", "shared.Entity", "shared.EntityType"}:
-                return {("isent", truth)}
+            names = {unparse(x).split(".")[-1] for x in (test.args[1].elts if isinstance(test.args[1], ast.Tuple) else [test.args[1]])}
+            if not truth:
+                # known NOT to be an instance of any of the listed classes
+                return {("notinst", n) for n in names}
+            return {("inst", tuple(sorted(names)))}
         return set()
 
     def transfer(node, st):
@@ -485,7 +487,8 @@ def rule_handle(ctx) -> RuleResult:
                 res.find("H5Writer", "fetch_handle", f"returns a node keyed by something else than {ent}.uid", f"{fh.module.relpath}:{r.lineno}",
                          "writer functions act on another entity's node")
         else:
-            excl = ("isent", False) in facts
+            # both kinds must be excluded: an Entity AND an EntityType can carry the project's name
+            excl = {("notinst", "Entity"), ("notinst", "EntityType")} <= set(facts)
             cond = "not an Entity / EntityType" if excl else "no kind test"
             res.inst(f"fetch_handle:{r.lineno} returns the project group ({cond})", nontrivial=True, ok=excl)
             if not excl:
